@@ -19,7 +19,15 @@ func main() {
 	repo := flag.String("repo", "/repo", "repository root")
 	verif := flag.String("verif", "/verif", "verif root")
 	replay := flag.String("replay", "", "replay file")
+	emit := flag.String("emit-shipped", "", "write coq/Gen/Shipped.v and exit")
 	flag.Parse()
+	if *emit != "" {
+		if err := emitShipped(*repo, *emit); err != nil {
+			fmt.Fprintln(os.Stderr, "harness:", err)
+			os.Exit(3)
+		}
+		return
+	}
 	f, ok := props[*prop]
 	if !ok {
 		fmt.Fprintln(os.Stderr, "harness: unknown property", *prop)
